@@ -161,6 +161,8 @@ class Exec(Engine):
         for k in n.keywords:
             if k.arg not in c.params:
                 if c.varargs:
+                    if c.ignored_kwargs is not None and k.arg not in c.ignored_kwargs:
+                        raise Unsupported(f'keyword `{k.arg}` of {c.key} is not covered by its assumed contract')
                     continue
                 raise Unsupported(f'unknown keyword {k.arg} for {c.key}')
             binds[k.arg] = ('node', k.value)
